@@ -5,6 +5,8 @@ CONSTANTS N = 3
  SkipPropMatch = FALSE
  SkipGater = FALSE
  UseSenderIdx = TRUE
+ SwapEpochFor = "none"
+ SignedGater = FALSE
  InnerProofPolicy = "reject"
  VCBatchPolicy = "none"
 INVARIANTS TypeOK OnlyValidEnter ValidEnters PeerAllOrNothing
